@@ -101,15 +101,14 @@ RForward(node, committed) ==
 (* ---- Event::PaymentClaimable(hash, amount_msat, claim_deadline).                           *)
 (* NoBogusClaimable: the event stands for a set of held HTLCs none of which is bad on its     *)
 (* own, that carry the same secret and total_msat, whose amounts add up to the amount shown   *)
-(* and reach the amount committed to at registration, and whose earliest expiry leaves the    *)
-(* advertised deadline in the future.                                                         *)
+(* and reach the amount committed to at registration; the advertised deadline lies in the     *)
+(* future (what the deadline promises is stated by RFail / RQuietOK).                         *)
 GoodSet(node, hash, S, amt, deadline) ==
   /\ S # {}
   /\ \A k \in S : ~rh[k].bad
   /\ \A a, b \in S : rh[a].sreg = rh[b].sreg /\ rh[a].total = rh[b].total /\ rh[a].keysend = rh[b].keysend
   /\ SumAmt(S) = amt
   /\ \A k \in S : IF rh[k].keysend THEN Cardinality(S) = 1 ELSE amt >= reg[rh[k].sreg].amt
-  /\ deadline = MinCltv(S) - par.buf
   /\ deadline > height
 RClaimable(node, hash, amt, deadline) ==
   LET key == <<node, hash>>
@@ -144,7 +143,8 @@ RFulfil(node, chan, id) ==
 
 (* ---- the node emits update_fail_htlc for an HTLC it was offered.                           *)
 (* Never after it fulfilled it or a sibling of the same claimable set (AllOrNothing), never   *)
-(* after the user claimed the set strictly below the advertised deadline (ClaimWindow).       *)
+(* after the user claimed the set strictly below the advertised deadline, and on its own      *)
+(* account not before the advertised deadline (ClaimWindow).                                  *)
 RFail(node, chan, id) ==
   LET k == <<node, chan, id>> IN
   IF k \notin DOMAIN rh THEN UNCHANGED rvars
@@ -153,6 +153,7 @@ RFail(node, chan, id) ==
        /\ (rh[k].st = "shown") =>
             /\ \A j \in cs[key].set : rh[j].st # "ful"
             /\ ~(cs[key].decision = "claim" /\ cs[key].at < cs[key].deadline)
+            /\ cs[key].decision = "none" => height >= cs[key].deadline
        /\ rh' = [rh EXCEPT ![k].st = "fail"]
        /\ UNCHANGED <<reg, sent, cs, height, now, ticks, par, initBal, credited, offered>>
 
